@@ -30,6 +30,8 @@ type stream struct {
 
 	isDetaching bool
 	isAttached  bool
+	// isBlocked is true while a processor waits for the next event in blockGet
+	isBlocked bool
 
 	first *Event
 	last  *Event
@@ -134,9 +136,11 @@ func (s *stream) blockGet() *Event {
 	}
 	for s.first == nil {
 		s.blockTime = time.Now()
+		s.isBlocked = true
 		s.streamer.makeBlocked(s)
 		s.cond.Wait()
 		s.streamer.resetBlocked(s)
+		s.isBlocked = false
 	}
 	event := s.get()
 	s.mu.Unlock()
@@ -167,6 +171,13 @@ func (s *stream) tryUnblock() bool {
 	}
 
 	s.mu.Lock()
+	// heartbeat works with a snapshot of blocked streams,
+	// the stream may have got the next event and left blockGet since then.
+	if !s.isBlocked {
+		s.mu.Unlock()
+		return false
+	}
+
 	if time.Since(s.blockTime) < s.streamer.eventTimeout {
 		s.mu.Unlock()
 		return false
